@@ -29,7 +29,8 @@ class RefProblem(object):
     """a taxonomy with n_leaves leaves, labelled reference cells, a query"""
 
     def __init__(self, rng, n_leaves=None, n_genes=None, depth=None,
-                 cells_per_leaf=(3, 6), n_query=None, wide=False):
+                 cells_per_leaf=(3, 6), n_query=None, wide=False,
+                 group_sizes=None):
         """wide=True: three levels, 3-4 classes with 2-3 subclasses each, 2-3
         clusters per subclass (so every level above the leaves has >= 3
         parents with > 1 child), node names of varied length, >= 64 query
@@ -64,6 +65,10 @@ class RefProblem(object):
                 rng.shuffle(subs)
                 wide_tree['class'][name('class', ci)] = subs
             n_leaves = len(leaves)
+        if group_sizes is not None:
+            # two levels, the classes have exactly these numbers of leaves
+            depth = 2
+            n_leaves = sum(group_sizes)
         self.n_leaves = n_leaves or rng.randint(5, 8)
         self.n_genes = n_genes or rng.randint(10, 16)
         depth = depth or rng.choice([2, 3])
@@ -85,6 +90,9 @@ class RefProblem(object):
                                rng.randint(2, 3)))
             cuts = sorted(rng.sample(range(1, len(children)), n_par - 1)) \
                 if n_par > 1 else []
+            if group_sizes is not None:
+                cuts = [sum(group_sizes[:k])
+                        for k in range(1, len(group_sizes))]
             groups = [children[a:b] for a, b in
                       zip([0] + cuts, cuts + [len(children)])]
             names = ['%s%d' % (lvl[:2], i) for i in range(len(groups))]
@@ -454,6 +462,7 @@ class Selection(StageRun):
     #: when no query file is given): iteration order then depends on the
     #: hash seed
     query_as_set = False
+    behemoth_cutoff = 1000000
 
     def prepare(self):
         self.ref_marker_file()
@@ -469,7 +478,7 @@ class Selection(StageRun):
                               if self.query_as_set
                               else list(self.prob.query_genes)),
             n_per_utility=2, n_per_utility_override=None,
-            n_processors=n_processors, behemoth_cutoff=1000000,
+            n_processors=n_processors, behemoth_cutoff=self.behemoth_cutoff,
             tmp_dir=self.tmp)
 
     def outputs(self):
@@ -482,6 +491,23 @@ class Selection(StageRun):
         if self.result is None:
             return None
         return {k: v for k, v in self.result.items() if k != 'log'}
+
+
+class SelectionBehemoth(Selection):
+    """query-marker selection on a taxonomy with classes of 4, 4 and 2 leaves
+    and `behemoth_cutoff=5`: the root (32 leaf pairs) and the two big classes
+    (6 pairs each) are "behemoths" - processed on the full table, one at a
+    time - the small class is not.  With every small parent started and a
+    behemoth still running, the scheduler is in its "traffic jam" wait."""
+    name = 'selection.behemoth'
+    behemoth_cutoff = 5
+
+    def __init__(self, prob, d):
+        import random
+        own = RefProblem(random.Random(prob.seed), group_sizes=[4, 4, 2])
+        sub = pathlib.Path(d) / 'behemoth'
+        sub.mkdir(exist_ok=True)
+        super().__init__(own, sub)
 
 
 class Transpose(StageRun):
@@ -688,7 +714,7 @@ HASHSEED_EXTRA = {c.name: c for c in (MappingWide, StatsFromColumns)}
 
 STAGES = {c.name: c for c in (Mapping, Stats, RefMarkers, RefMarkersTranspose,
                               PMask, PMarkers, PMarkersTranspose, Selection,
-                              Transpose)}
+                              SelectionBehemoth, Transpose)}
 
 
 def run_wide_canonical(prob_seed, workdir, n_proc=2):
